@@ -39,7 +39,28 @@ func newKeyPool() []interface{} {
 	return []interface{}{
 		int(1), int64(1), "1", int32(1), uint(1), int(2), "k",
 		&keyT{1}, &keyT{1}, keyA{1}, keyB{1}, keyA{2}, true, 1.0,
+		// keys that are the zero value of their type are keys like any other
+		int(0), "", false, keyA{}, 0.0,
 	}
+}
+
+// scaleKey: as many further distinct keys as a history asks for.
+type scaleKey struct{ N int }
+
+// keyAt resolves a scripted key index: the pool, or — from 100 on — a
+// scaleKey, which joins the pool (and hence every later read-back) on first use.
+func (w *World) keyAt(i int) interface{} {
+	if i < 100 {
+		return w.keyPool[pick(len(w.keyPool), i)]
+	}
+	k := scaleKey{i - 100}
+	for _, have := range w.keyPool {
+		if have == interface{}(k) {
+			return k
+		}
+	}
+	w.keyPool = append(w.keyPool, k)
+	return k
 }
 
 func (w *World) ownersAll() []*propOwner {
@@ -183,7 +204,7 @@ func (w *World) DoProp(st *Step) bool {
 		if po == nil {
 			return true
 		}
-		key := w.keyPool[pick(len(w.keyPool), st.C)]
+		key := w.keyAt(st.C)
 		var val interface{}
 		if st.D != 0 {
 			w.nextVal++
